@@ -78,7 +78,7 @@ CHECKS = {
         design="5/C05"),
     "C14": dict(
         text="Free theorem (Paramcoq parametricity translation of the model's own definitions, Closed under the global context): the core model is parametric in the component type and uses only ceqb, "
-             "hence for ANY injective renaming f of path components the verdict, violation lines (C14_rule_rename_invariant) and layer verdicts / layer attributions (C14_layer_rename_invariant) "
+             "hence for ANY injective renaming f of path components the verdict, violation lines (C14_rule_rename_invariant), layer verdicts / layer attributions (C14_layer_rename_invariant) and diagram-rule verdicts and reports in both modes (C14_diagram_rename_invariant) "
              "commute with f; plot labels: C14_label_rename_invariant / _unaliased (the label is the alias of the most specific aliased module + the remaining components, so it keeps the alias and renames the rest); C14_render_prefix: on dotted strings the component prefix order is exactly 'equal or starts with name + dot' (the test every name comparison in the code must use). "
              "Tie to /repo: every case materialised under several namings on the real code - collision-free and adversarial pools (a, ab, a_b, aa, ...; names repeating the root; a.b next to a_b) - real outcomes compared modulo the renaming "
              "(module rules, layer rules, diagram rules in both modes, plot labels, scanned projects), plus model agreement.",
